@@ -19,7 +19,7 @@ EXHAUSTIVE_SUBSPACES = [
 ]
 RUNS = [
     dict(harness="harness/C12.cpp", flavour="o2", scale={"quick": 1.0, "thorough": 1.0}),
-    dict(harness="harness/C12.cpp", flavour="asan", scale={"quick": 0.08, "thorough": 0.04}, extra_args=["--limit-s", "900"]),
+    dict(harness="harness/C12.cpp", flavour="asan", scale={"quick": 0.05, "thorough": 0.04}, extra_args=["--limit-s", "900"]),
 ]
 MANIFEST = dict(
     technique="runtime sentinel + value-equality monitors on every output argument over the exhaustively enumerated mask x capability x arcmode x solver x overload lattice; NaN-return, third-point history and arc/distance duality monitors; stack-pattern monitor for uninitialised reads; ASan+UBSan build of the same workload",
